@@ -64,7 +64,19 @@ def v2_strategy():
          "name": st.sampled_from(["A", "B"]), "codes": st.lists(st.sampled_from(["0001", "0002", "", "9999"]), max_size=4)},
         optional={"primary": st.booleans(), "short_name": st.just("s"), "bank_code": st.sampled_from(["7777", ""]),
                   "extra": st.integers(0, 2)})
-    return st.lists(entry, max_size=5).map(lambda es: {"expand_from": "codes", "expand_into": "bank_code", "entries": es})
+    def doc(es_names):
+        es, (src, dst) = es_names
+        out = []
+        for e in es:
+            e = dict(e)
+            codes = e.pop("codes")
+            if src == dst:
+                e.pop("bank_code", None)
+            e[src] = codes
+            out.append(e)
+        return {"expand_from": src, "expand_into": dst, "entries": out}
+    names = st.sampled_from([("codes", "bank_code"), ("bank_codes", "bank_code"), ("bank_code", "bank_code"), ("codes", "code")])
+    return st.tuples(st.lists(entry, max_size=5), names).map(doc)
 
 
 def check_v2(rec: Rec, doc):
@@ -91,7 +103,7 @@ def hyp_body(rec, v):
                  {"docs": payload} if conflict else None)
     else:
         check_v2(rec, payload)
-        n = sum(len(e["codes"]) for e in payload["entries"])
+        n = sum(len(e[payload["expand_from"]]) for e in payload["entries"])
         rec.case("v2-doc", json.dumps(payload, sort_keys=True) if n >= 2 else None, payload if n >= 2 else None)
 
 
@@ -165,6 +177,13 @@ def gen_bank_files(rng):
                 e["primary"] = rng.random() < 0.5
             entries.append(e)
         name = f"{li}banks" + (".v2.json" if v2 else ".json")
+        if v2 and rng.random() < 0.3:
+            # the list of codes stored under the very name it is expanded into
+            for e in entries:
+                e.pop("bank_code", None)
+                e["bank_code"] = e.pop("bank_codes")
+            files[name] = {"expand_from": "bank_code", "expand_into": "bank_code", "entries": entries}
+            continue
         files[name] = {"expand_from": "bank_codes", "expand_into": "bank_code", "entries": entries} if v2 else entries
         if rng.random() < 0.35 and entries and not v2:
             # a second file whose name extends this one's stem: 'xbanks-more.json' sorts BEFORE 'xbanks.json' ('-' < '.'),
